@@ -124,12 +124,15 @@ def payload_inputs(kind, name):
     return []
 
 
-def inputs_for(lk, rks):
+def inputs_for(lk, rks, op=None):
     """kani::any() call order of a harness (for counterexample decoding): l, c, then per cell i the
-    lhs payload a<i> and the rhs payload b<i>."""
+    lhs payload a<i> and the rhs payload b<i> (for the int x int cell of `/` and `%` followed by the
+    nondet quotient / remainder q<i> chosen by the stubbed std primitive)."""
     ins = [("l", "usize"), ("c", "usize")]
     for i, rk in enumerate(rks):
         ins += payload_inputs(lk, f"a{i}") + payload_inputs(rk, f"b{i}")
+        if op in ("Div", "Mod") and (lk, rk) == ("int", "int"):
+            ins.append((f"q{i}", "i64"))
     return ins
 
 
